@@ -1,0 +1,54 @@
+//! Verification hooks (visibility shims only; compiled with `--cfg gmsol_verif`).
+use anchor_lang::prelude::*;
+
+use crate::states::{config::Config, gt_bank::GtBank, treasury::TreasuryVaultConfig};
+
+/// See `Config::init`.
+pub fn config_init(config: &mut Config, bump: u8, receiver_bump: u8, store: &Pubkey) {
+    config.init(bump, receiver_bump, store)
+}
+
+/// See `Config::set_treasury_vault_config`.
+pub fn config_set_treasury_vault_config(config: &mut Config, address: Pubkey) -> Result<Pubkey> {
+    config.set_treasury_vault_config(address)
+}
+
+/// See `Config::set_gt_factor`.
+pub fn config_set_gt_factor(config: &mut Config, factor: u128) -> Result<u128> {
+    config.set_gt_factor(factor)
+}
+
+/// See `Config::set_buyback_factor`.
+pub fn config_set_buyback_factor(config: &mut Config, factor: u128) -> Result<u128> {
+    config.set_buyback_factor(factor)
+}
+
+/// See `TreasuryVaultConfig::init`.
+pub fn treasury_vault_config_init(tvc: &mut TreasuryVaultConfig, bump: u8, index: u16, config: &Pubkey) {
+    tvc.init(bump, index, config)
+}
+
+/// See `GtBank::try_init`.
+pub fn gt_bank_try_init(bank: &mut GtBank, bump: u8, treasury_vault_config: Pubkey, gt_exchange_vault: Pubkey) -> Result<()> {
+    bank.try_init(bump, treasury_vault_config, gt_exchange_vault)
+}
+
+/// See `GtBank::record_transferred_in`.
+pub fn gt_bank_record_transferred_in(bank: &mut GtBank, token: &Pubkey, amount: u64) -> Result<()> {
+    bank.record_transferred_in(token, amount)
+}
+
+/// See `GtBank::confirm_unchecked`.
+pub fn gt_bank_confirm_unchecked(bank: &mut GtBank, gt_amount: u64) -> Result<()> {
+    bank.confirm_unchecked(gt_amount)
+}
+
+/// See `GtBank::remaining_confirmed_gt_amount`.
+pub fn gt_bank_remaining_confirmed_gt_amount(bank: &GtBank) -> u64 {
+    bank.remaining_confirmed_gt_amount()
+}
+
+/// See `GtBank::reserve_balances`.
+pub fn gt_bank_reserve_balances(bank: &mut GtBank, numerator: &u128, denominator: &u128) -> Result<()> {
+    bank.reserve_balances(numerator, denominator)
+}
